@@ -288,6 +288,29 @@ theorem C03_finite_sound_stops_backward (s : StaticSound ℝ) (hs : s.SliceOk) (
       ∧ ∀ j, j < s.transport.position + 1 + 4 → ∃ sj, StaticSound.updN j s = .ok sj ∧ sj.core = s.core :=
   StaticSound.backward_ends _ s hs hp hl hbw rfl
 
+/-- **… within an explicit number of output frames**: at a constant non-zero rate `r` every output
+    frame advances the position by `c = sr·|r|·dt > 0`, so after any `k` frames of a `process` call with
+    `k·c ≥ max (n − p) 1 + 4` the sound is Stopped (forwards; `p + 1 + 4` in reverse, second part). -/
+theorem C03_finite_sound_stops_in_frames (fuel : Nat) (dt r : ℝ) (len k i : Nat) (s s' : StaticSound ℝ)
+    (outs : List (Frame ℝ)) (hs : s.SliceOk) (hp : s.transport.playing = true) (hl : s.transport.loopRegion = none)
+    (hr : s.playbackRate.Rests r) (hdt : 0 ≤ dt) (h0 : 0 ≤ s.frac) (h1 : s.frac < 1)
+    (hfuel : ⌊s.frac + k * ((s.sampleRate : ℝ) * |r| * dt)⌋₊ < fuel)
+    (h : StaticSound.renderLoop fuel dt len k i s = .ok (s', outs)) :
+    (s.isPlayingBackwards = false →
+        ((max (s.nFrames - s.transport.position) 1 + 4 : ℕ) : ℝ) ≤ k * ((s.sampleRate : ℝ) * |r| * dt) → s'.IsStopped)
+    ∧ (s.isPlayingBackwards = true →
+        ((s.transport.position + 1 + 4 : ℕ) : ℝ) ≤ k * ((s.sampleRate : ℝ) * |r| * dt) → s'.IsStopped) := by
+  have hc : 0 ≤ (s.sampleRate : ℝ) * |r| * dt := by positivity
+  constructor
+  · intro hbw hk
+    obtain ⟨⟨sN, hN, hst⟩, _⟩ := StaticSound.forward_ends _ s hs hp hl hbw rfl
+    exact StaticSound.renderLoop_reaches_stopped fuel dt len _ hc k i _ s s' sN outs
+      (fun t => StaticSound.fracStep_rests s r t dt hr) h0 h1 hfuel hN hst hk h
+  · intro hbw hk
+    obtain ⟨⟨sN, hN, hst⟩, _⟩ := StaticSound.backward_ends _ s hs hp hl hbw rfl
+    exact StaticSound.renderLoop_reaches_stopped fuel dt len _ hc k i _ s s' sN outs
+      (fun t => StaticSound.fracStep_rests s r t dt hr) h0 h1 hfuel hN hst hk h
+
 /-! ### the static sound follows the shared life cycle -/
 
 /-- **every history of a static sound moves its life-cycle core only by the documented events**
